@@ -255,6 +255,8 @@ def same_object(pp, a, b, k=1):
         return f"volume {a.volume!r} vs {b.volume!r}"
     if a.max_volume != b.max_volume:
         return f"capacity {a.max_volume!r} vs {b.max_volume!r}"
+    if a.name != b.name:
+        return f"name {a.name!r} vs {b.name!r}"
     return None
 
 
